@@ -21,6 +21,18 @@ def gen(tier, rng):
         d = bytes(igz.corpus(rng, cls, n))
         c = zlib.compressobj([1, 6, 9][i % 3], zlib.DEFLATED, -15, 9, [0, zlib.Z_FIXED, zlib.Z_HUFFMAN_ONLY, zlib.Z_RLE][i % 4])
         streams.append((["zlib-%s" % cls], c.compress(d) + c.flush()))
+    # payloads whose Adler-32 halves sit on their boundary values (A or B equal to 0 or 65520), in the zlib modes (with header, trailer only,
+    # trailer only + verify): the decoder keeps A-1 internally and converts at the end
+    from props import c11
+    edge = []
+    for name, d in c11.adler_edge_inputs(rng):
+        if len(d) > 20000: continue
+        d = bytes(d); c = zlib.compressobj(6, zlib.DEFLATED, -15); edge.append((name, c.compress(d) + c.flush(), d))
+    for i, (name, raw, plain) in enumerate(edge):
+        for mode in (3, 5, 4):
+            st = inflfam.wrap_stream(mode, raw, plain)
+            for api, calls, ta, to in (("inflate_stateless", [[len(st), len(plain) + 100, 0, 0]], 1 << 20, 1 << 20), ("inflate", [], 7, 64), ("inflate", [], 1 << 20, 1 << 16)):
+                scns.append(igz.scenario(len(scns), api, list(st), wrap=mode, calls=calls, tail_ai=ta, tail_ao=to, cap=100000, mem=i % 3, meta={"plan": "adler-edge:" + name, "cpu": inflfam.KERNEL_CPUS[i % 3]}))
     k = 0
     for plan, raw in streams:
         try: plain = inflfam.py_inflate(raw)          # only needed to PRODUCE the wrapper trailer; the spec re-decides everything
